@@ -5,19 +5,30 @@ Correspondence (model ≈ code), all through the Lean driver:
      `PurePosixPath(a, b)` on boundary and random strings;
   P  `FileServer.request_to_localpath` (and the key `add_observation` stores) vs
      `requestToLocalPath` for several root forms;
-  R  `FileServer.render` / `needs_blockwise_assembly` on wire-decoded requests in a scratch
-     tree vs `handle`: response code, Block2, payload and the exact sequence of file-system
-     calls (as seen by the jail of harness/c19_jail.py), with the operating system's answers
-     (stat kind, directory entries, file bytes, ETag hits) measured by the harness beforehand
-     and given to the model as its `World`.
+  A  what the program's own start-up (`FileServerProgram()` on a fake `sys.argv`: build_parser, parse_args,
+     extract_server_arguments, start_with_options; only the creation of the network context is stubbed) makes
+     of a command line -- write flag, ETag length, root -- vs `parseArgv`;
+  H  histories: `FileServer.render` / `needs_blockwise_assembly` / `add_observation` / GET with Observe: 0
+     through `render_to_pipe` / rounds of `check_files_for_refreshes` (virtual clock) on wire-decoded requests in
+     a scratch tree vs `Server.run`: response code, Block2, payload and the exact sequence of file-system calls
+     of every step (as seen by the jail of harness/c19_jail.py), with the operating system's answers (stat kind,
+     directory entries, file bytes, ETag hits, files gone at a refresh round) measured by the harness beforehand
+     and given to the model as its `World`; what the observation table holds is the model's own state.
 Oracle (independent reading of the property over the jail's log and the tree):
-  every call names a path inside the root (nothing was refused by the jail); without write
-  the tree (names, types, sizes, contents, mtimes, inodes) is unchanged and no modifying call
-  was made; a request whose naive path leaves the root is answered with an error and changes
-  nothing; a block-wise fetch of a file, for every szx, equals the file's content.
+  every call names a path inside the root (nothing was refused by the jail) -- requests and refresh rounds;
+  without write permission (constructor flag; or no `--write` on the command line; or the constructor's
+  defaults) the tree (names, types, sizes, contents, mtimes, inodes) is unchanged, no modifying call was made
+  and PUT/DELETE are refused; a request whose naive path leaves the root is answered with an error and
+  changes nothing; every successful answer to a GET of a regular file is the slice of the file's PRESENT bytes
+  at the offset its Block2 names (full-sized if it announces more, reaching the end if not), and a block-wise
+  fetch, for every szx, equals the file's content -- also right after the file was replaced (PUT / behind the
+  server's back) while it is or was observed, before and after refresh rounds.
 Nothing outside the scratch directory is read or modified: the jail refuses such calls.
 """
+import asyncio
+import contextlib
 import errno
+import functools
 import hashlib
 import logging
 import mimetypes
@@ -25,29 +36,49 @@ import os
 import posixpath
 import shutil
 import stat as statmod
+import sys
 import tempfile
 from pathlib import Path, PurePosixPath
 
 from common import compare, load_corpus, HarnessError, VERIF
 from c19_jail import Jail, Refused, inside, lexical_abs, entry_modifies
+from vloop import VirtualLoop
 
 RULE = ("J: pairs over a table of path-significant strings (all pairs) + random concatenations. "
         "P: Uri-Path lists = all lists of length <= 2 over a 15-symbol alphabet ('', '.', '..', 'a/b', "
         "'/', '/etc', '//', NUL, 255/256-char, Unicode, plain names), all length-3 lists over 6 symbols, "
-        "plus random lists, for absolute/relative/'/'/'//' roots. R: requests decoded from wire bytes and "
+        "plus random lists, for absolute/relative/'/'/'//' roots. H: requests decoded from wire bytes and "
         "rendered by the real FileServer in a scratch tree (files of 0/1/15/16/17/1023/1024/1025/2500/5000 "
         "bytes, nested dirs, a non-regular node): full table targets x methods x write x etag config x "
         "If-None-Match x If-Match x ETag; every block of every file for szx 0..7 (+ blocks past the end); "
-        "random histories of 1-6 requests (55% paths into the tree, 45% hostile mutations/random lists). "
+        "S: the server built by the program's own start-up for a table of command lines (16 option groups "
+        "without --write x {alone, --write before/after, root argument first/last/absent = working directory}, "
+        "abbreviated and repeated --write, pairs of groups) and by the bare constructor defaults, each with a "
+        "battery of PUT/DELETE/GET (new file, replacement, conditional, subdirectory, hostile path); "
+        "M: a file of size s1, never/still/once observed (GET Observe:0 through render_to_pipe, or "
+        "add_observation alone), replaced by s2 bytes via PUT / in place / by rename, with a refresh round "
+        "before/after/between two changes or none, then every block for a given szx (quick: full cross of "
+        "how x observation x szx for 100->600 and 600->100, all tick modes with rotating szx, 9 boundary "
+        "pairs up to 5000 bytes; thorough: the full cross); random histories of 1-6 requests (55% paths into "
+        "the tree, 45% hostile mutations/random lists; 25% on a server started from a random command line) with "
+        "observations, local changes and refresh rounds mixed in; random histories of 3-9 steps on ONE file "
+        "(block requests around its present end, size changes, observations, refresh rounds). "
         "A case is non-trivial when the request reached the file system or was rejected by the path check "
         "(J/P: a non-empty right operand / component list); distinct by the full case.")
 TRUSTED = ["interception of file-system access at the os/io/builtins/shutil module attributes "
            "(harness/c19_jail.py); C-level access that bypasses them would not be seen",
-           "mimetypes' one-time database load is done before the jail is active"]
+           "mimetypes' one-time database load is done before the jail is active",
+           "virtual-clock event loop (harness/vloop.py); the stub that replaces the creation of the network "
+           "context when the program is started from a command line"]
 ASSUMPTIONS = ["no symbolic links inside the root and no concurrent modification (TOCTOU) -- OS behaviour "
-               "outside the lexical model",
+               "outside the lexical model; the property quantifies over trees of directories and files",
                "directory entry names returned by the OS and names chosen by tempfile are single proper "
-               "components (hypothesis World.wf of C19_ops_confined)"]
+               "components (hypothesis World.wf of C19_ops_confined)",
+               "the file does not change between the block requests of one fetch (it may change between any "
+               "two other steps)",
+               "command lines outside the modelled tokens (abbreviated options, --opt=value, --register) are "
+               "judged by the oracle only; re-renders set off by a refresh round for a live observer are judged "
+               "by the oracle only"]
 
 SIZES = [0, 1, 15, 16, 17, 1023, 1024, 1025, 2500, 5000]
 LONG255 = "L" * 255
@@ -63,6 +94,7 @@ def hx(s):
 
 
 SCRATCH = "\u0001scratch\u0001"      # stands for the components of the scratch directory's absolute path
+ROOTARG = "\u0001root\u0001"         # stands for the scratch root on a command line
 
 
 def expand(comps, sc):
@@ -97,6 +129,7 @@ def tok_to_str(tok):
     return s or "."
 
 
+@functools.lru_cache(maxsize=256)
 def content_of(n):
     return bytes((i * 37 + (i >> 8) * 11 + n) & 0xFF for i in range(n))
 
@@ -104,12 +137,19 @@ def content_of(n):
 # ------------------------------------------------------------------ scratch tree -------
 
 
+def scratch_dir(prefix):
+    """a fresh directory outside /repo and /verif; on the memory file system when there is one (the histories
+    create and remove some ten thousand files)"""
+    base = "/dev/shm" if os.path.isdir("/dev/shm") and os.access("/dev/shm", os.W_OK | os.X_OK) else None
+    return os.path.realpath(tempfile.mkdtemp(prefix=prefix, dir=base))
+
+
 class Scratch:
     """A directory outside /repo and /verif: `<scratch>/srv` is the server's root,
     `<scratch>/outside.txt` a neighbour that must never be touched."""
 
     def __init__(self, env):
-        d = os.path.realpath(tempfile.mkdtemp(prefix="c19-"))
+        d = scratch_dir("c19-")
         for forbidden in ("/repo", "/verif", VERIF, env.repo):
             if inside(d, os.path.realpath(forbidden)):
                 shutil.rmtree(d)
@@ -147,6 +187,58 @@ class Scratch:
         except OSError:
             os.mkfifo(self.root + "/sock")
         self.pristine = self.tree_hash()
+
+    def spec(self):
+        """what build() puts below the scratch directory: {relative path: bytes | "dir" | "node"}"""
+        out = {"outside.txt": b"secret outside the root", "srv.bak": b"secret backup beside the root",
+               "srv": "dir", "srv/d": "dir", "srv/d/e": "dir", "srv/d/sub": "dir", "srv/sock": "node"}
+        for sib in ("srv-private", "srv2"):
+            out[sib] = "dir"
+            out[sib + "/secret.txt"] = b"secret in a sibling directory"
+        for n in SIZES:
+            out[f"srv/f{n}"] = content_of(n)
+        for name, n in (("d/x.txt", 33), ("d/sub/deep.txt", 100), ("é.txt", 5), (LONG255, 3)):
+            out["srv/" + name] = content_of(n)
+        return out
+
+    def restore(self):
+        """Bring the tree back to what build() made, touching only what differs (a full rebuild costs some
+        hundred unlink/rmdir calls); any surprise falls back to build()."""
+        try:
+            spec = self.spec()
+            seen = set()
+            for dirpath, dirnames, filenames in os.walk(self.dir, topdown=False):
+                for name in filenames + dirnames:
+                    p = os.path.join(dirpath, name)
+                    rel = os.path.relpath(p, self.dir)
+                    want = spec.get(rel)
+                    st = os.lstat(p)
+                    if want is None or (want == "dir") != statmod.S_ISDIR(st.st_mode) or \
+                            (want == "node") != (not statmod.S_ISDIR(st.st_mode) and not statmod.S_ISREG(st.st_mode)):
+                        if statmod.S_ISDIR(st.st_mode):
+                            shutil.rmtree(p)
+                        else:
+                            os.unlink(p)
+                        continue
+                    if isinstance(want, bytes):
+                        with open(p, "rb") as f:
+                            if f.read() != want:
+                                with open(p, "wb") as g:
+                                    g.write(want)
+                    seen.add(rel)
+            for rel in sorted(set(spec) - seen):
+                want = spec[rel]
+                p = os.path.join(self.dir, rel)
+                if want == "dir":
+                    os.makedirs(p, exist_ok=True)
+                elif want == "node":
+                    raise OSError("special node missing")
+                else:
+                    with open(p, "wb") as f:
+                        f.write(want)
+            self.pristine = self.tree_hash()
+        except OSError:
+            self.build()
 
     def tree_hash(self):
         """names, types, and for files size/mtime/inode/content (directory mtimes excluded: a
@@ -253,7 +345,7 @@ class Impl:
     def server(self, root, write, etags):
         return self.fsmod.FileServer(Path(root), self.log, write=write, etag_length=8 if etags else 0)
 
-    def request(self, method, comps, payload=b"", inm=False, if_match=(), etags=(), b2=None):
+    def request(self, method, comps, payload=b"", inm=False, if_match=(), etags=(), b2=None, observe=None):
         A = self.aiocoap
         m = A.Message(code=self.codes[method], payload=payload)
         m.opt.uri_path = tuple(comps)
@@ -265,20 +357,31 @@ class Impl:
             m.opt.etags = list(etags)
         if b2 is not None:
             m.opt.block2 = (b2[0], False, b2[1])
+        if observe is not None:
+            m.opt.observe = observe
         m.mid = 1
         m.mtype = A.CON
         m.token = b"\x01"
         return A.Message.decode(m.encode())          # INCOMING, options as parsed from the wire
 
 
-def canon_ops(cwd, log):
-    """The logged calls in the model's op alphabet (+ W/X for anything the model never does)."""
+def canon_ops(cwd, log, relroot=False):
+    """The logged calls in the model's op alphabet (+ W/X for anything the model never does).  Paths as the
+    code named them (made absolute with the working directory, unless the server's root is the relative `.`:
+    the model's paths are relative then, too)."""
     ops, tmp = [], None
     for e in log:
         fn = e["fn"]
         if not e["raw"]:
             continue
-        t = [path_tok(posixpath.join(cwd, r)) for r in e["raw"]]
+        if relroot:
+            # relative to the working directory, as the model's paths are: `str(Path("."))` is ".", and tempfile
+            # makes the directory it is given absolute (an absolute path below the working directory names the
+            # same object as the relative one; anything else stays absolute and differs from the model)
+            raws = [("" if r in (".", cwd) else r[len(cwd) + 1:] if r.startswith(cwd + "/") else r) for r in e["raw"]]
+            t = [path_tok(r) for r in raws]
+        else:
+            t = [path_tok(posixpath.join(cwd, r)) for r in e["raw"]]
         if fn in ("stat", "lstat"):
             ops.append("S" + t[0])
         elif fn in ("listdir", "scandir"):
@@ -293,7 +396,7 @@ def canon_ops(cwd, log):
             ops.append("R" + t[0] + ">" + t[1])
         elif fn == "open":
             fl = e["flags"] or 0
-            full = posixpath.join(cwd, e["raw"][0])
+            full = raws[0] if relroot else posixpath.join(cwd, e["raw"][0])
             if fl & os.O_CREAT and fl & os.O_EXCL:
                 ops.append("T" + path_tok(posixpath.dirname(full)))
                 tmp = posixpath.basename(full)
@@ -332,8 +435,66 @@ def if_match_values(tags, etag):
     return out
 
 
+class FakeRemote:
+    """just enough of an endpoint address for the library's block-wise helpers (requests that go
+    through `render_to_pipe`)"""
+    scheme = "coap"
+    hostinfo = "client.invalid"
+    hostinfo_local = "server.invalid"
+    uri_base = "coap://client.invalid"
+    uri_base_local = "coap://server.invalid"
+    is_multicast = False
+    is_multicast_locally = False
+    maximum_block_size_exp = 6
+    maximum_payload_size = 1024
+    authenticated_claims = ()
+    blockwise_key = ("c19-client",)
+
+
+def cli_grants_write(argv):
+    """Independent reading of 'write permission' for a server started from the command line: the operator
+    gave `--write` (or a prefix of it that no other option shares, which argparse accepts as that option)."""
+    return any(len(a) >= 3 and "--write".startswith(a) for a in argv)
+
+
+def block_rule(step, resp, disk):
+    """Independent reading of 'a file fetched block by block is byte-identical to the file's content', per
+    response: a successful answer to a GET of a regular file carries exactly the bytes of the file at the offset
+    it names (Block2 number x size; no Block2 = the whole body), full-sized when it announces more, reaching the
+    end of the file when it does not, and at the offset that was asked for.  A client that follows the M flag
+    from block 0 then assembles exactly the file, whatever happened to the file or the server before."""
+    rb = step.get("b2")
+    b = resp.opt.block2
+    pl = resp.payload
+    if b is None:
+        if rb is not None and rb[0] != 0:
+            return f"block {rb[0]} was asked for, the answer carries no Block2 option"
+        if pl != disk:
+            return (f"answered without Block2 (complete body) with {len(pl)} bytes, the file has {len(disk)} bytes"
+                    if len(pl) != len(disk) else "answered a complete body that differs from the file")
+        return ""
+    size = 1024 if b.size_exponent == 7 else 2 ** (b.size_exponent + 4)
+    off = b.block_number * size
+    want_off = 0 if rb is None else rb[0] * (1024 if rb[1] == 7 else 2 ** (rb[1] + 4))
+    if off != want_off:
+        return f"the answer is block {b.block_number} of size {size}, not the bytes at offset {want_off} asked for"
+    if len(pl) > size:
+        return f"block {b.block_number} carries {len(pl)} bytes, more than its size {size}"
+    if pl != disk[off:off + len(pl)]:
+        return (f"block {b.block_number} (size {size}) is not the file's bytes {off}..{off + len(pl)} "
+                f"(file has {len(disk)} bytes)")
+    if b.more and len(pl) != size:
+        return f"block {b.block_number} announces more but carries {len(pl)} of {size} bytes"
+    if not b.more and off + len(pl) < len(disk):
+        return (f"block {b.block_number} (size {size}) ends the transfer at byte {off + len(pl)}, the file has "
+                f"{len(disk)} bytes")
+    return ""
+
+
 class Runner:
-    """Executes histories against the real FileServer inside the scratch tree."""
+    """Executes histories against the real FileServer inside the scratch tree.  The server's coroutines run
+    on a virtual-clock event loop (the 10 s refresh loop of `check_files_for_refreshes` is started the way
+    `FileServerProgram.start_with_options` starts it and advanced by TICK steps)."""
 
     def __init__(self, env, rep=None):
         self.env = env
@@ -341,113 +502,395 @@ class Runner:
         self.impl = Impl(env)
         self.sc = Scratch(env)
         self.root_tok = path_tok(self.sc.root)
+        self.loop = VirtualLoop()
+        asyncio.set_event_loop(self.loop)
+        self.live = []            # tasks belonging to the server under test
+        self.observers = []       # ... those of them that render for an open observation
+        self.last_hash = None     # the tree's hash after the last step of the previous history, when known
+        self.last_cli = None
+        self.prog = None
+        self.mtime = 1_700_000_000_000_000_000
+        self.home = os.getcwd()
 
     def close(self):
-        self.sc.close()
+        try:
+            self.end_server()
+        finally:
+            asyncio.set_event_loop(None)
+            self.loop.close()
+            self.sc.close()
+
+    def await_(self, coro):
+        return self.loop.run_until_complete(coro)
+
+    # ---- starting and stopping the server under test -------------------------------------
+
+    def start_server(self, case):
+        sc, impl = self.sc, self.impl
+        argv = case.get("argv")
+        if argv is None:
+            rootform = sc.root + ("/" if case.get("rootform") == "slash" else "")
+            if case.get("defaults"):
+                # the resource as an application builds it that passes nothing but root and logger
+                if case["write"] or not case["etags"]:
+                    raise HarnessError("a 'defaults' case states the documented defaults: read-only, ETags on")
+                fs = impl.fsmod.FileServer(Path(rootform), impl.log)
+            else:
+                fs = impl.server(rootform, case["write"], case["etags"])
+            # what FileServerProgram.start_with_options does beside constructing the resource
+            self.live.append(self.loop.create_task(fs.check_files_for_refreshes()))
+            return fs
+        return self.start_program(argv)
+
+    def start_program(self, argv):
+        """The server as the command line `aiocoap-fileserver <argv>` builds it: FileServerProgram's own start()
+        (parser, option extraction, start_with_options); only the creation of the network context is replaced.
+        The token ROOTARG stands for the scratch root; without it the program serves its working directory, which
+        is the scratch root then."""
+        sc, impl = self.sc, self.impl
+        fsmod, A = impl.fsmod, impl.aiocoap
+        captured = []
+
+        class StubContext:
+            async def shutdown(self):
+                pass
+
+        async def stub_from_arguments(site, namespace, **kw):
+            captured.append(site)
+            return StubContext()
+
+        async def stub_create(site, *a, **kw):
+            captured.append(site)
+            return StubContext()
+
+        async def go():
+            prog = fsmod.FileServerProgram()
+            await prog.initializing
+            return prog
+
+        saved_sca = fsmod.server_context_from_arguments
+        saved_csc = A.Context.__dict__["create_server_context"]
+        saved_argv = sys.argv
+        saved_handlers = logging.root.handlers[:]
+        levels = {n: logging.getLogger(n).level for n in ("fileserver", "coap-server", "coap")}
+        self.saved_levels = levels
+        fsmod.server_context_from_arguments = stub_from_arguments
+        A.Context.create_server_context = staticmethod(stub_create)
+        sys.argv = ["aiocoap-fileserver"] + [sc.root if a == ROOTARG else a for a in argv]
+        if ROOTARG not in argv:
+            os.chdir(sc.root)
+            sc.jail.cwd = sc.root
+        prog = None
+        try:
+            with open(os.devnull, "w") as dn, contextlib.redirect_stderr(dn), contextlib.redirect_stdout(dn):
+                try:
+                    prog = self.await_(go())
+                except SystemExit:
+                    prog = None              # the parser refused the command line: no server
+        finally:
+            fsmod.server_context_from_arguments = saved_sca
+            A.Context.create_server_context = saved_csc
+            sys.argv = saved_argv
+            logging.root.handlers[:] = saved_handlers
+        self.last_cli = "usage"
+        if prog is None:
+            self.end_server()
+            return None
+        if len(captured) != 1:
+            raise HarnessError(f"FileServerProgram created {len(captured)} server contexts")
+        site = captured[0]
+        self.last_cli = f"ok write={int(bool(site.write))} etag={site.etag_length} root={pure_tok(site.root)}"
+        self.prog = prog
+        __import__("common").quiet(logging.getLogger("fileserver"))
+        return captured[0]
+
+    def end_server(self):
+        if self.prog is not None:
+            prog, self.prog = self.prog, None
+            if getattr(prog, "refreshes", None) is not None:
+                self.live.append(prog.refreshes)
+            try:
+                self.await_(prog.shutdown())
+            except Exception:
+                pass
+        live, self.live = self.live, []
+        self.observers = []
+        for t in live:
+            t.cancel()
+        if live:
+            self.await_(asyncio.gather(*live, return_exceptions=True))
+        for n, lv in getattr(self, "saved_levels", {}).items():
+            logging.getLogger(n).setLevel(lv)
+        self.saved_levels = {}
+        if os.getcwd() != self.home:
+            os.chdir(self.home)
+        self.sc.jail.cwd = self.home
+
+    # ---- steps that are not requests -------------------------------------------------------
+
+    def local_write(self, step):
+        """The operator (or another process) changes a file inside the root behind the server's back."""
+        sc = self.sc
+        comps = step["comps"]
+        if not comps or any(c in ("", ".", "..") or "/" in c or "\0" in c for c in comps):
+            raise HarnessError(f"local write to {comps!r}")
+        p = sc.root + "/" + "/".join(comps)
+        how = step.get("how", "replace")
+        if os.path.isdir(p) or not os.path.isdir(os.path.dirname(p)) or \
+                (os.path.lexists(p) and not os.path.isfile(p)):
+            return "skipped"
+        if how == "remove":
+            if os.path.lexists(p):
+                os.unlink(p)
+            return "removed"
+        data = content_of(step["size"] + 7)[7:][::-1] if step.get("salt") else content_of(step["size"])
+        if how == "inplace":
+            with open(p, "wb") as f:
+                f.write(data)
+        else:
+            with open(p + ".c19new", "wb") as f:
+                f.write(data)
+            os.replace(p + ".c19new", p)
+        self.mtime += 1_000_000_000       # the coarse file-system clock must not hide the change
+        os.utime(p, ns=(self.mtime, self.mtime))
+        return how
+
+    def read_file(self, naive):
+        if "\0" in naive or not inside(lexical_abs("/", naive), self.sc.root) or naive.endswith("/"):
+            return None
+        try:
+            if not statmod.S_ISREG(os.stat(naive).st_mode):
+                return None
+            with open(naive, "rb") as f:
+                return f.read()
+        except (OSError, ValueError):
+            return None
+
+    def observed_get(self, fs, req, end):
+        """GET with Observe: 0 the way the library hands it to a resource: `render_to_pipe` on a Pipe, which
+        registers the observation (`add_observation`) and renders the first response.  Returns (response or
+        None, exception or None)."""
+        from aiocoap.pipe import Pipe
+        req.remote = FakeRemote()
+        pipe = Pipe(req, self.impl.log)
+        events = []
+
+        def on_event(ev):
+            events.append(ev)
+            return not ev.is_last
+        pipe.on_event(on_event)
+        task = self.loop.create_task(fs.render_to_pipe(pipe))
+
+        async def first():
+            for _ in range(100):
+                if events or task.done():
+                    return
+                await asyncio.sleep(0)
+        self.await_(first())
+        resp = exc = None
+        if events and events[0].message is not None:
+            resp = events[0].message
+        elif events and events[0].exception is not None:
+            exc = events[0].exception
+        if task.done():
+            if not task.cancelled() and task.exception() is not None:
+                exc = exc or task.exception()
+        elif end or (events and events[0].is_last):
+            task.cancel()
+            self.await_(asyncio.gather(task, return_exceptions=True))
+        else:
+            self.live.append(task)          # the observation stays open until the history ends
+            self.observers.append(task)
+        if resp is None and exc is None:
+            raise HarnessError("observed GET produced neither response nor exception")
+        return resp, exc
+
+    # ---- one history ------------------------------------------------------------------------
 
     def run_history(self, case, model_paths=None):
-        """Returns a list of per-step dicts {line, impl, verdicts[(text,key)], nontrivial, tags}."""
+        """Returns a list of per-step dicts {line, impl, verdicts[(text,key)], ...}, or None when the
+        command line of the case was refused by the program's parser (no server)."""
+        sc = self.sc
+        if self.last_hash != sc.pristine and sc.tree_hash() != sc.pristine:
+            sc.restore()
+        self.last_hash = None
+        try:
+            fs = self.start_server(case)
+            if fs is None:
+                return None
+            return self._run_steps(case, fs, model_paths)
+        finally:
+            self.end_server()
+
+    def _run_steps(self, case, fs, model_paths):
         sc, impl = self.sc, self.impl
-        if sc.tree_hash() != sc.pristine:
-            sc.build()
-        write, etags = case["write"], case["etags"]
-        rootform = sc.root + ("/" if case.get("rootform") == "slash" else "")
-        fs = impl.server(rootform, write, etags)
+        argv = case.get("argv")
+        if argv is None:
+            write, etags = case["write"], case["etags"]
+        else:
+            write = cli_grants_write(argv)
+            etags = case["etags"]
+        relroot = argv is not None and ROOTARG not in argv
+        mpaths = model_paths or {}
+        hist_paths = sorted({mpaths[tuple(expand(s["comps"], sc))] for s in case["steps"]
+                             if "comps" in s and mpaths.get(tuple(expand(s["comps"], sc)))})
+        nroot = len(self.root_tok.split(":")[1].split(","))
+
+        def model_form(mp):
+            """the path as the model of THIS server names it (relative when the root is `.`)"""
+            return "0:" + ",".join(mp.split(":")[1].split(",")[nroot:]) if relroot else mp
         before = sc.pristine
         results = []
+        last_content = b""         # content field of the previous R event (`=` stands for it)
         for step in case["steps"]:
-            comps = expand(step["comps"], sc)
             method = step["m"]
-            mp = (model_paths or {}).get(tuple(comps))
-            # what the OS would say about the path the model computed (model lines only)
-            w = sc.inspect(tok_to_str(mp)) if mp else sc.inspect("/nonexistent-outside")
-            naive = sc.root + "/" + "/".join(comps)
-            etag_now = None
-            try:
-                if inside(lexical_abs("/", naive), sc.root) and "\0" not in naive:
-                    etag_now = fs.hash_stat(os.stat(naive))
-            except OSError:
-                etag_now = None
-            imv = if_match_values(step.get("im", ()), etag_now)
-            etv = if_match_values(step.get("et", ()), etag_now)
-            em = bool(w["st"] is not None and etags and fs.hash_stat(w["st"]) in etv)
-            hit = bool(w["st"] is not None and etags and fs.hash_stat(w["st"]) in imv)
-            obs = any(v[0] is None and mp is not None and path_tok(str(k)) == mp
-                      for k, v in fs._observations.items())
-            payload = content_of(step.get("plen", 0))[::-1]
-            req = impl.request("GET" if method == "OBS" else method, comps, payload,
-                               step.get("inm", False), imv, etv, step.get("b2"))
             jail = sc.jail
-            jail.log, jail.refused = [], []
-            outcome, b2s, pl, nba = "crash", "-", "-", "?"
+            if method == "LW":
+                how = self.local_write(step)
+                before = sc.tree_hash()
+                results.append({"events": [], "verdicts": [], "outcome": "local:" + how, "ops": [],
+                                "resp": None, "stat": "-", "payload": None, "more": False, "disk": None})
+                continue
+            comps = expand(step.get("comps", []), sc)
+            verdicts = []
+            events = []
             resp = None
-            with jail:
+            disk = None
+            outcome, b2s, pl, nba = "crash", "-", "-", "?"
+            w = {"stat": "-"}
+            if method == "TICK":
+                # ten seconds pass: one round of check_files_for_refreshes (and whatever it sets off)
+                gone = []
+                for mp in hist_paths:
+                    try:
+                        os.stat(tok_to_str(mp))
+                    except (OSError, ValueError):
+                        gone.append(model_form(mp))
+                watchers = any(not t.done() for t in self.observers)
+                jail.log, jail.refused = [], []
+                with jail:
+                    try:
+                        self.await_(asyncio.sleep(10.25))
+                        outcome = "tick"
+                    except Refused:
+                        outcome = "crash"
+            else:
+                mp = mpaths.get(tuple(comps))
+                # what the OS would say about the path the model computed (model lines only)
+                w = sc.inspect(tok_to_str(mp)) if mp else sc.inspect("/nonexistent-outside")
+                naive = sc.root + "/" + "/".join(comps)
+                disk = self.read_file(naive)
+                etag_now = None
                 try:
-                    if method == "OBS":
-                        run_coro(fs.add_observation(req, FakeObservation()))
-                        outcome = "obs"
-                    else:
-                        nba = "1" if run_coro(fs.needs_blockwise_assembly(req)) else "0"
-                        resp = run_coro(fs.render(req))
-                        outcome = resp.code.dotted
-                except Refused:
-                    outcome = "crash"
-                except impl.error.RenderableError as e:
-                    outcome = e.to_message().code.dotted
-                except HarnessError:
-                    raise
-                except Exception:
-                    outcome = "crash"
-            if resp is not None:
-                b = resp.opt.block2
-                b2s = "-" if b is None else f"{b.block_number}:{1 if b.more else 0}:{b.size_exponent}"
-                if outcome[0] == "2":
-                    pl = resp.payload.hex() or "-"
-            ops, tmp = canon_ops(jail.cwd, jail.log)
+                    if inside(lexical_abs("/", naive), sc.root) and "\0" not in naive:
+                        etag_now = fs.hash_stat(os.stat(naive))
+                except OSError:
+                    etag_now = None
+                imv = if_match_values(step.get("im", ()), etag_now)
+                etv = if_match_values(step.get("et", ()), etag_now)
+                em = bool(w["st"] is not None and etags and fs.hash_stat(w["st"]) in etv)
+                hit = bool(w["st"] is not None and etags and fs.hash_stat(w["st"]) in imv)
+                b2 = step.get("b2")
+                payload = content_of(step.get("plen", 0))[::-1]
+                req = impl.request("GET" if method in ("OBS", "OGET") else method, comps, payload,
+                                   step.get("inm", False), imv, etv, b2, observe=0 if method == "OGET" else None)
+                jail.log, jail.refused = [], []
+                exc = None
+                with jail:
+                    try:
+                        if method == "OBS":
+                            fo = FakeObservation()
+                            self.await_(fs.add_observation(req, fo))
+                            if step.get("end") and fo.cancel is not None:
+                                fo.cancel()
+                            outcome = "obs"
+                        else:
+                            nba = "1" if self.await_(fs.needs_blockwise_assembly(req)) else "0"
+                            if method == "OGET":
+                                resp, exc = self.observed_get(fs, req, bool(step.get("end")))
+                                if exc is not None:
+                                    raise exc
+                            else:
+                                resp = self.await_(fs.render(req))
+                            outcome = resp.code.dotted
+                    except Refused:
+                        outcome = "crash"
+                    except impl.error.RenderableError as e:
+                        outcome = e.to_message().code.dotted
+                    except HarnessError:
+                        raise
+                    except Exception:
+                        outcome = "crash"
+                if resp is not None:
+                    b = resp.opt.block2
+                    b2s = "-" if b is None else f"{b.block_number}:{1 if b.more else 0}:{b.size_exponent}"
+                    if outcome[0] == "2":
+                        pl = resp.payload.hex() or "-"
+            ops, tmp = canon_ops(jail.cwd, jail.log, relroot)
             after = sc.tree_hash()
             # ---- oracle -------------------------------------------------------------
-            verdicts = []
+            what = f"{method} {comps!r}" if method != "TICK" else "the refresh tick"
+            cl = f" (command line {argv!r})" if argv is not None else ""
             for e in jail.refused:
-                verdicts.append((f"{method} {comps!r}: {e['fn']}({e['abs']}) outside the scratch "
+                verdicts.append((f"{what}: {e['fn']}({e['abs']}) outside the scratch "
                                  f"directory was attempted (refused)", "outside-scratch:" + e["fn"]))
             for e in jail.log:
                 for ab in e["abs"]:
                     if e["exc"] != "Refused" and not inside(ab, sc.root):
-                        verdicts.append((f"{method} {comps!r}: {e['fn']}({ab}) is outside the root "
+                        verdicts.append((f"{what}: {e['fn']}({ab}) is outside the root "
                                          f"{sc.root}", "outside-root:" + e["fn"]))
             if not write:
                 if after != before:
-                    verdicts.append((f"{method} {comps!r} changed the tree although write is off",
+                    verdicts.append((f"{what} changed the tree although the server has no write permission" + cl,
                                      "modified-without-write:" + method))
                 mods = [e["fn"] for e in jail.log if entry_modifies(e)]
                 if mods:
-                    verdicts.append((f"{method} {comps!r} made modifying calls {mods} although write "
-                                     f"is off", "modifying-call-without-write:" + method))
-            if method != "OBS" and naive_escapes(sc.root, comps):
+                    verdicts.append((f"{what} made modifying calls {mods} although the server has no write "
+                                     f"permission" + cl, "modifying-call-without-write:" + method))
+                if method in ("PUT", "DELETE") and outcome[0] not in "45c":
+                    verdicts.append((f"{what} was answered {outcome} by a server without write permission" + cl,
+                                     "write-not-refused:" + method))
+            if method not in ("OBS", "TICK") and naive_escapes(sc.root, comps):
                 if outcome[0] not in "45c":
-                    verdicts.append((f"{method} {comps!r} leads outside the root but was answered "
+                    verdicts.append((f"{what} leads outside the root but was answered "
                                      f"{outcome}", "hostile-not-rejected"))
                 if after != before:
-                    verdicts.append((f"{method} {comps!r} leads outside the root and changed the tree",
+                    verdicts.append((f"{what} leads outside the root and changed the tree",
                                      "hostile-had-effect"))
-            # ---- model line ---------------------------------------------------------
-            line = None
-            if method != "OBS":
-                ml = MLETTER.get(method, "X")
+            if method in ("GET", "OGET") and resp is not None and outcome == "2.05" and disk is not None:
+                v = block_rule(step, resp, disk)
+                if v:
+                    verdicts.append((f"{what}" + (f" Block2 {step['b2']}" if step.get("b2") else "") + ": " + v,
+                                     "block-not-file-slice"))
+            # ---- model events -------------------------------------------------------
+            if method == "TICK":
+                # a live observer re-renders its resource when the round notices a change: those accesses belong
+                # to requests of the library, not to the round -- judged by the oracle above, not compared
+                events.append({"tok": "K;" + ("|".join(gone) or "~"), "cmp": not watchers and outcome == "tick",
+                               "impl": " ".join(["tick", "|"] + ops)})
+            elif method == "OBS":
+                events.append({"tok": "O;" + comps_tok(comps), "cmp": True, "impl": outcome})
+            else:
+                if method == "OGET" and (b2 is None or b2[0] == 0):
+                    events.append({"tok": "O;" + comps_tok(comps), "cmp": False, "impl": ""})
+                ml = MLETTER.get("GET" if method == "OGET" else method, "X")
                 im = step.get("im", ())
-                b2 = step.get("b2")
                 ch = "~" if not w["children"] else ",".join(f"{hx(n)}:{1 if d else 0}"
                                                             for n, d in w["children"])
-                line = (f"C19 R {int(write)}{int(etags)} {self.root_tok} {ml} {comps_tok(comps)} "
-                        f"{int(bool(step.get('inm')))}{int(bool(im))}{int('empty' in im)} "
-                        f"{'-' if b2 is None else f'{b2[0]}:{b2[1]}'} {w['stat']} "
-                        f"{int(em)}{int(hit)}{int(obs)}{int(w['pdir'])} {hx(tmp) if tmp else '-'} "
-                        f"{ch} {w['content'].hex() or '-'}")
-            implout = " ".join([outcome, b2s, pl, "nba=" + nba, "|"] + ops)
-            results.append({"line": line, "impl": implout, "verdicts": verdicts, "outcome": outcome,
-                            "ops": ops, "resp": resp, "stat": w["stat"], "payload": None if resp is None else resp.payload,
+                tok = (f"R;{ml};{comps_tok(comps)};"
+                       f"{int(bool(step.get('inm')))}{int(bool(im))}{int('empty' in im)};"
+                       f"{'-' if b2 is None else f'{b2[0]}:{b2[1]}'};{w['stat']};"
+                       f"{int(em)}{int(hit)}{int(w['pdir'])};{hx(tmp) if tmp else '-'};"
+                       f"{ch};{'=' if w['content'] == last_content else w['content'].hex() or '-'}")
+                last_content = w["content"]
+                events.append({"tok": tok, "cmp": not (method == "OGET" and nba != "0"),
+                               "impl": " ".join([outcome, b2s, pl, "nba=" + nba, "|"] + ops)})
+            results.append({"events": events, "verdicts": verdicts, "outcome": outcome,
+                            "ops": ops, "resp": resp, "stat": w["stat"], "disk": disk,
+                            "payload": None if resp is None else resp.payload,
                             "more": bool(resp is not None and resp.opt.block2 is not None and resp.opt.block2.more)})
             before = after
+        self.last_hash = before
         return results
 
 
@@ -486,11 +929,26 @@ def gen_comps(rng):
     return [rng.choice(HOSTILE + ["a", "d", "f16", "x.txt"]) for _ in range(rng.randrange(0, 5))], True
 
 
+LW_TARGETS = [["f16"], ["f1025"], ["f5000"], ["f0"], ["d", "x.txt"], ["new.txt"], ["d", "sub", "deep.txt"], ["m.bin"]]
+
+
 def gen_step(rng, write):
     comps, hostile = gen_comps(rng)
-    m = rng.choices(["GET", "PUT", "DELETE", "POST", "FETCH", "PATCH", "iPATCH", "OBS"],
-                    [45, 25 if write else 12, 18 if write else 10, 3, 2, 2, 2, 4])[0]
+    m = rng.choices(["GET", "PUT", "DELETE", "POST", "FETCH", "PATCH", "iPATCH", "OBS", "OGET", "LW", "TICK"],
+                    [45, 25 if write else 12, 18 if write else 10, 3, 2, 2, 2, 4, 5, 6, 3])[0]
+    if m == "TICK":
+        return {"m": "TICK"}, False
+    if m == "LW":
+        # somebody else changes a file below the root between two requests
+        return {"m": "LW", "comps": list(rng.choice(LW_TARGETS)), "size": rng.choice(SIZES + [100, 1500, 3000]),
+                "how": rng.choice(["inplace", "replace", "replace", "remove"]), "salt": rng.randrange(2)}, False
     step = {"m": m, "comps": comps}
+    if m in ("OGET", "OBS"):
+        if rng.random() < 0.7:
+            step["comps"] = list(rng.choice(LW_TARGETS))
+        step["end"] = rng.random() < 0.5
+        if m == "OGET" and rng.random() < 0.3:
+            step["b2"] = [rng.choice([0, 0, 1]), rng.randrange(8)]
     if m == "GET":
         if rng.random() < 0.35:
             step["et"] = list(rng.choice(ET_CHOICES))
@@ -513,10 +971,225 @@ def history_cases(env):
         write = rng.random() < 0.6
         case = {"kind": "R", "write": write, "etags": rng.random() < 0.8,
                 "rootform": rng.choice(["plain", "plain", "slash"]), "steps": []}
+        if rng.random() < 0.25:
+            # the server as the command line builds it
+            argv, etl = gen_argv(rng, write)
+            case = {"kind": "R", "argv": argv, "write": write, "etags": etl != 0, "steps": []}
         for _ in range(rng.randrange(1, 7)):
             case["steps"].append(gen_step(rng, write)[0])
         out.append(case)
     return out
+
+
+def focused_cases(env):
+    """Random histories that stay on ONE file: observations (opened, ended, resource-level), block requests around
+    the present end of the file, changes of its size behind the server's back and by PUT, refresh rounds, deletion --
+    the soil for state remembered about a file (stat, size, content) going stale."""
+    rng = env.rng
+    out = []
+    for _ in range(env.scale(160, 4000)):
+        f = list(rng.choice([["m.bin"], ["f16"], ["d", "x.txt"], ["f1025"]]))
+        write = rng.random() < 0.5
+        size = {"m.bin": None, "f16": 16, "x.txt": 33, "f1025": 1025}[f[-1]]
+        steps = []
+        if size is None:
+            size = rng.choice([0, 17, 100, 600, 1024, 1500])
+            steps.append({"m": "LW", "comps": f, "size": size, "how": "replace"})
+        for _ in range(rng.randrange(3, 10)):
+            k = rng.choices(["B", "OGET", "OBS", "LW", "PUT", "TICK", "DELETE", "GET"],
+                            [40, 10, 4, 16, 10 if write else 0, 12, 2 if write else 0, 6])[0]
+            if k == "B":
+                szx = rng.randrange(8)
+                bs = 2 ** (min(szx, 6) + 4)
+                last = (size or 0) // bs
+                steps.append({"m": "GET", "comps": f, "b2": [max(0, rng.choice([0, last - 1, last, last, last + 1, rng.randrange(last + 2)])), szx]})
+            elif k in ("OGET", "OBS"):
+                steps.append({"m": k, "comps": f, "end": rng.random() < 0.5})
+            elif k == "LW":
+                how = rng.choice(["inplace", "replace", "replace", "remove"])
+                size = None if how == "remove" else rng.choice([0, 1, 16, 17, 100, 600, 1023, 1024, 1025, 1500, 3000])
+                steps.append({"m": "LW", "comps": f, "size": size or 0, "how": how, "salt": rng.randrange(2)})
+            elif k == "PUT":
+                size = rng.choice([0, 16, 17, 100, 600, 1024, 1025, 3000])
+                steps.append({"m": "PUT", "comps": f, "plen": size, "im": [], "inm": False})
+            elif k == "DELETE":
+                size = None
+                steps.append({"m": "DELETE", "comps": f, "im": []})
+            elif k == "TICK":
+                steps.append({"m": "TICK"})
+            else:
+                steps.append({"m": "GET", "comps": f})
+        out.append({"kind": "R", "write": write, "etags": rng.random() < 0.8, "steps": steps})
+    return out
+
+
+# ---- S: the server as started from the command line ---------------------------------------------------------
+
+# option groups of aiocoap-fileserver that have nothing to do with write permission (`--register` is left out: it
+# starts network activity); the second element is the ETag length the group sets (None = leaves the default 8)
+ARGV_NEUTRAL = [([], None), (["-v"], None), (["-vv"], None), (["-vvv"], None), (["--verbose"], None),
+                (["--verbose", "-v"], None),
+                (["--etag-length", "4"], 4), (["--etag-length=0"], 0), (["--etag-length", "7"], 7),
+                (["--etag-length", "1"], 1),
+                (["--bind", "[::1]:56830"], None), (["--bind", ":5683"], None), (["--bind=localhost"], None),
+                (["--credentials", "/nonexistent/credentials.json"], None),
+                (["--tls-server-certificate", "c.pem", "--tls-server-key", "k.pem"], None),
+                (["--server-config", "/nonexistent/server.toml"], None)]
+ARGV_WRITE = [["--write"], ["--wri"], ["--write", "--write"]]
+
+
+def argv_table():
+    """(argv, etag length) for: every neutral group alone, with `--write` before / after it, the root argument
+    first / last / absent (the working directory is served), pairs of neutral groups."""
+    out = []
+    for g, etl in ARGV_NEUTRAL:
+        e = 8 if etl is None else etl
+        out.append((g + [ROOTARG], e))
+        out.append(([ROOTARG] + g, e))
+        out.append((["--write"] + g + [ROOTARG], e))
+        out.append((g + ["--write", ROOTARG], e))
+        out.append(([ROOTARG] + g + ["--write"], e))
+        out.append((list(g), e))
+        out.append((g + ["--write"], e))
+    for w in ARGV_WRITE[1:]:
+        out.append((w + [ROOTARG], 8))
+        out.append((["-v"] + w + [ROOTARG], 8))
+    for i in (1, 6, 10, 13):
+        for j in (2, 7, 11, 14):
+            g = ARGV_NEUTRAL[i][0] + ARGV_NEUTRAL[j][0]
+            etl = ARGV_NEUTRAL[i][1] if ARGV_NEUTRAL[i][1] is not None else ARGV_NEUTRAL[j][1]
+            if ARGV_NEUTRAL[i][1] is not None and ARGV_NEUTRAL[j][1] is not None:
+                etl = ARGV_NEUTRAL[j][1]                # the later --etag-length wins
+            out.append((g + [ROOTARG], 8 if etl is None else etl))
+            out.append(([ROOTARG] + g, 8 if etl is None else etl))
+    return out
+
+
+def gen_argv(rng, write):
+    groups = [rng.choice(ARGV_NEUTRAL) for _ in range(rng.randrange(0, 4))]
+    etl = 8
+    toks = []
+    for g, e in groups:
+        toks.append(list(g))
+        if e is not None:
+            etl = e
+    if write:
+        toks.insert(rng.randrange(len(toks) + 1), list(rng.choice(ARGV_WRITE)))
+    if rng.random() < 0.8:
+        toks.insert(rng.randrange(len(toks) + 1), [ROOTARG])
+    return [t for g in toks for t in g], etl
+
+
+WRITE_BATTERY = [
+    {"m": "PUT", "comps": ["new.txt"], "plen": 20, "im": [], "inm": False},
+    {"m": "GET", "comps": ["new.txt"]},
+    {"m": "PUT", "comps": ["f16"], "plen": 17, "im": [], "inm": False},
+    {"m": "PUT", "comps": ["d", "new"], "plen": 1, "im": [], "inm": False},
+    {"m": "PUT", "comps": ["fresh.txt"], "plen": 3, "im": [], "inm": True},
+    {"m": "PUT", "comps": ["f17"], "plen": 3, "im": ["empty"], "inm": False},
+    {"m": "PUT", "comps": ["f1"], "plen": 0, "im": ["match"], "inm": False},
+    {"m": "DELETE", "comps": ["f1023"], "im": []},
+    {"m": "DELETE", "comps": ["d", "x.txt"], "im": []},
+    {"m": "DELETE", "comps": ["f1024"], "im": ["match"]},
+    {"m": "DELETE", "comps": ["f15"], "im": ["empty"]},
+    {"m": "PUT", "comps": ["..", "outside.txt"], "plen": 5, "im": [], "inm": False},
+    {"m": "DELETE", "comps": ["", "etc", "hostname"], "im": []},
+    {"m": "GET", "comps": ["f16"]},
+    {"m": "GET", "comps": ["f5000"], "b2": [2, 4]},
+    {"m": "GET", "comps": [""]},
+    {"m": "GET", "comps": []},
+    {"m": "POST", "comps": ["f16"], "plen": 3},
+]
+
+
+SHORT_BATTERY = [WRITE_BATTERY[i] for i in (0, 2, 7, 9, 13, 15)]
+
+
+def defaults_cases():
+    return [{"kind": "R", "defaults": True, "write": False, "etags": True, "rootform": rf,
+             "steps": [dict(st) for st in WRITE_BATTERY]} for rf in ("plain", "slash")]
+
+
+def cli_cases():
+    """every command line of the table with the short battery (create, replace, delete, conditional delete,
+    read, list), every fourth one and the shortest ones with the full battery"""
+    return [{"kind": "R", "argv": argv, "write": cli_grants_write(argv), "etags": etl != 0,
+             "steps": [dict(st) for st in (WRITE_BATTERY if i % 4 == 0 or len(argv) <= 2 else SHORT_BATTERY)]}
+            for i, (argv, etl) in enumerate(argv_table())]
+
+
+# ---- M: a file that changes after it was observed -----------------------------------------------------------
+
+M_FILE = "m.bin"
+M_PAIRS = [(16, 5000), (1500, 5000), (1024, 1025), (1025, 1024), (5000, 17), (0, 2500), (2500, 0), (17, 16),
+           (1023, 2500)]
+M_HOW = ["put", "inplace", "replace"]
+M_OBS = ["never", "active", "ended", "registered"]
+M_TICK = ["none", "before", "after", "between"]     # between: change, refresh round, change again
+
+
+def mutation_cases(env):
+    """A file of one size that was (never / still / once) observed is replaced -- by PUT or behind the server's
+    back -- by content of another size and then fetched block by block.  Quick: the full cross of
+    how x observation x szx for a growing and a shrinking pair, the refresh tick before / after the change with
+    a rotating szx, and every boundary pair for two combinations; thorough: the full cross."""
+    out = []
+
+    def mk(s1, s2, how, obs, tick, szx):
+        out.append({"kind": "M", "s1": s1, "s2": s2, "how": how, "obs": obs, "tick": tick, "szx": szx})
+    if env.thorough:
+        for s1, s2 in M_PAIRS + [(100, 600), (600, 100)]:
+            for how in M_HOW:
+                for obs in M_OBS:
+                    for tick in M_TICK:
+                        for szx in range(8):
+                            mk(s1, s2, how, obs, tick, szx)
+        return out
+    n = 0
+    for s1, s2 in ((100, 600), (600, 100)):
+        for how in M_HOW:
+            for obs in M_OBS:
+                for szx in range(8):
+                    mk(s1, s2, how, obs, "none", szx)
+                for tick in ("before", "after", "between"):
+                    mk(s1, s2, how, obs, tick, n % 8)
+                    n += 3
+    for s1, s2 in M_PAIRS:
+        for how, obs in (("put", "ended"), ("inplace", "active"), ("replace", "registered")):
+            mk(s1, s2, how, obs, "none", n % 8)
+            n += 3
+    return out
+
+
+def mutation_history(mc):
+    """(history, index of the first fetch step)"""
+    f = [M_FILE]
+    steps = [{"m": "LW", "comps": f, "size": mc["s1"], "how": "replace"}]
+    if mc["obs"] == "active":
+        steps.append({"m": "OGET", "comps": f})
+    elif mc["obs"] == "ended":
+        steps.append({"m": "OGET", "comps": f, "end": True})
+    elif mc["obs"] == "registered":
+        steps += [{"m": "OBS", "comps": f}, {"m": "GET", "comps": f}]
+    if mc["tick"] == "before":
+        steps.append({"m": "TICK"})
+    if mc["tick"] == "between":
+        # a first change that a refresh round notices, then the change the fetch has to reflect
+        mid = (mc["s1"] + mc["s2"]) // 2 + 1
+        steps.append({"m": "LW", "comps": f, "size": mid, "how": "replace"})
+        steps.append({"m": "TICK"})
+    if mc["how"] == "put":
+        steps.append({"m": "PUT", "comps": f, "plen": mc["s2"], "im": [], "inm": False})
+    else:
+        steps.append({"m": "LW", "comps": f, "size": mc["s2"], "how": mc["how"], "salt": 1})
+    if mc["tick"] == "after":
+        steps.append({"m": "TICK"})
+    first = len(steps)
+    size = 2 ** (min(mc["szx"], 6) + 4)
+    nblocks = max(mc["s1"], mc["s2"]) // size + 1
+    steps += [{"m": "GET", "comps": f, "b2": [k, mc["szx"]]} for k in range(nblocks + 1)]
+    steps.append({"m": "GET", "comps": f})
+    return {"kind": "R", "write": mc["how"] == "put", "etags": True, "steps": steps}, first
 
 
 def table_cases():
@@ -573,12 +1246,14 @@ def fetch_history(fc):
     return {"kind": "R", "write": False, "etags": True, "steps": steps}
 
 
-def fetch_oracle(fc, results):
+def fetch_oracle(fc, results, want=None):
     """Concatenate the payloads of blocks 0.. until more is false: must be the file."""
     size = 2 ** (min(fc["szx"], 6) + 4)
-    want = content_of(fc["size"])
+    if want is None:
+        want = content_of(fc["size"])
     got = b""
-    for k, r in enumerate(results[:-2]):
+    fc = {"file": M_FILE, **fc}
+    for k, r in enumerate(results[:-2] if "size" in fc else results[:-1]):
         if r["resp"] is None or r["outcome"] != "2.05":
             return f"block {k} of {fc['file']} (szx {fc['szx']}) answered {r['outcome']}"
         if r["more"] and len(r["payload"]) != size:
@@ -685,7 +1360,7 @@ def bare_root_cases(env, rep, impl):
     enabled: requests that fail half way (a name the OS refuses in a directory that does not exist yet, a missing
     file, a path outside) must leave the root itself, its parent and the neighbour `<tmp>/keep` as they were.
     Oracle only (the model's tree is never empty)."""
-    d = os.path.realpath(tempfile.mkdtemp(prefix="c19-bare-"))
+    d = scratch_dir("c19-bare-")
     try:
         for forbidden in ("/repo", "/verif", VERIF, env.repo):
             if inside(d, os.path.realpath(forbidden)):
@@ -768,54 +1443,129 @@ def run(env, rep):
         compare(env, rep, pcs, lines, outs, what="request_to_localpath")
 
         # --- R: requests in the scratch tree
-        hist = [c for c in corpus if c.get("kind") == "R"] + table_cases() + sibling_cases()
+        hist = [c for c in corpus if c.get("kind") == "R"] + table_cases() + sibling_cases() + cli_cases() + defaults_cases()
         fcs = fetch_cases()
-        hist += history_cases(env)
-        allcomps = {tuple(expand(s["comps"], runner.sc)) for c in hist for s in c["steps"]}
-        allcomps |= {(fc["file"],) for fc in fcs}
+        mcs = [c for c in corpus if c.get("kind") == "M"] + mutation_cases(env)
+        hist += history_cases(env) + focused_cases(env)
+        allcomps = {tuple(expand(s["comps"], runner.sc)) for c in hist for s in c["steps"] if "comps" in s}
+        allcomps |= {(fc["file"],) for fc in fcs} | {(M_FILE,)}
         allcomps = sorted(allcomps)
         mouts = env.lean([f"C19 P {runner.root_tok} {comps_tok(c)}" for c in allcomps])
         model_paths = {c: (o[3:] if o.startswith("ok ") else None) for c, o in zip(allcomps, mouts)}
 
-        cases, lines, outs = [], [], []
+        # --- A: what the command line makes of the server (model of the parser vs the program's own start-up)
+        argvs = sorted({tuple(c["argv"]) for c in hist if c.get("argv") is not None})
+        aouts = env.lean(["C19 A " + " ".join(hx(runner.sc.root if a == ROOTARG else a) for a in av)
+                          for av in argvs])
+        cli_model = dict(zip(argvs, aouts))
+        cli_impl = {}
+
+        pending = []          # (history, sub-cases per step, results) waiting for the model
+        npending = [0]
 
         def flush():
-            if lines:
-                compare(env, rep, list(cases), list(lines), list(outs), what="FileServer.render")
-                cases.clear(), lines.clear(), outs.clear()
+            """one `C19 H` line per history; the model's outputs are compared event by event"""
+            batch = []
+            for c, subs, results in pending:
+                if c.get("argv") is None:
+                    cfg = f"{int(c['write'])}{int(c['etags'])} {runner.root_tok}"
+                else:
+                    m = cli_model[tuple(c["argv"])]
+                    if not m.startswith("ok "):
+                        rep.out_of_model += 1
+                        rep.count("S:history-not-compared:" + m)
+                        continue
+                    f = dict(x.split("=") for x in m.split(" ")[1:])
+                    cfg = f"{f['write']}{int(f['etag'] != '0')} {f['root']}"
+                evs = [(i, e) for i, r in enumerate(results) for e in r["events"]]
+                if evs:
+                    batch.append((subs, evs, f"C19 H {cfg} " + " ".join(e["tok"] for _, e in evs)))
+            pending.clear()
+            mouts = env.lean([line for _, _, line in batch])
+            for (subs, evs, line), mout in zip(batch, mouts):
+                if mout == "bad-op":
+                    raise HarnessError(f"driver rejected line: {line[:300]}")
+                parts = mout.split(" ;; ")
+                if len(parts) != len(evs):
+                    raise HarnessError(f"driver returned {len(parts)} outputs for {len(evs)} events")
+                for (i, e), m in zip(evs, parts):
+                    if not e["cmp"]:
+                        continue
+                    rep.traces += 1
+                    if m != e["impl"]:
+                        rep.disagree({"case": subs[i], "line": line[:2000], "event": e["tok"][:300]},
+                                     m[:2000], e["impl"][:2000], "FileServer history")
 
-        for c in hist:
+        def run_hist(c, single=False):
             results = runner.run_history(c, model_paths)
-            indep = not c["write"] and all(s["m"] != "OBS" for s in c["steps"])
+            if c.get("argv") is not None:
+                rep.count("S:started" if results is not None else "S:parser-refused")
+                rep.count("S:write-permission=%d" % cli_grants_write(c["argv"]))
+                rep.count("S:root=" + ("argument" if ROOTARG in c["argv"] else "working-directory"))
+                cli_impl[tuple(c["argv"])] = runner.last_cli
+            if results is None:
+                rep.case(c, nontrivial=False)
+                return None
+            indep = single or (not c["write"] and c.get("argv") is None and
+                               all(s["m"] in ("GET", "PUT", "DELETE", "POST", "FETCH", "PATCH", "iPATCH")
+                                   for s in c["steps"]))
+            subs = []
             for i, res in enumerate(results):
                 sub = {**c, "steps": [c["steps"][i]] if indep else c["steps"][: i + 1]}
+                subs.append(sub)
                 register(rep, sub, res)
                 rep.count("R:method=" + c["steps"][i]["m"])
                 rep.count("R:write=%d" % c["write"])
-                if res["line"] is not None:
-                    cases.append(sub), lines.append(res["line"]), outs.append(res["impl"])
-            if len(lines) > 4000:
+            pending.append((c, subs, [{"events": r["events"]} for r in results]))
+            npending[0] += len(results)
+            if npending[0] > 9000:
+                npending[0] = 0
                 flush()
+            return results
+
+        for c in hist:
+            run_hist(c)
+        for mc in mcs:
+            h, first = mutation_history(mc)
+            results = run_hist(h)
+            rep.case(mc, nontrivial=True, sample_every=97)
+            rep.count(f"M:how={mc['how']}"), rep.count(f"M:obs={mc['obs']}"), rep.count(f"M:tick={mc['tick']}")
+            rep.count("M:grows=%d" % (mc["s2"] > mc["s1"]))
+            v = fetch_oracle(mc, results[first:], results[first]["disk"])
+            if v:
+                ofail(rep, mc, v + f" (after: {mc['s1']} bytes, observation {mc['obs']}, tick {mc['tick']}, "
+                      f"replaced via {mc['how']} by {mc['s2']} bytes)", f"blockwise-mismatch-after-change:szx={mc['szx']}")
         for fc in fcs:
-            h = fetch_history(fc)
-            results = runner.run_history(h, model_paths)
-            for i, res in enumerate(results):
-                sub = {**h, "steps": [h["steps"][i]]}
-                register(rep, sub, res)
-                rep.count("R:method=GET")
-                rep.count("F:szx=%d" % fc["szx"])
-                cases.append(sub), lines.append(res["line"]), outs.append(res["impl"])
+            results = run_hist(fetch_history(fc), single=True)
+            rep.count("F:szx=%d" % fc["szx"], len(results))
             v = fetch_oracle(fc, results)
             rep.case(fc, nontrivial=True)
             if v:
                 ofail(rep, fc, v, f"blockwise-mismatch:szx={fc['szx']}")
-            if len(lines) > 1500:
-                flush()
         flush()
+        # the A lines: the parser model against what the program's own start-up built
+        for av in argvs:
+            if av not in cli_impl:
+                continue
+            case = {"kind": "A", "argv": list(av)}
+            rep.case(case, nontrivial=True, sample_every=50)
+            rep.count("A:" + cli_impl[av].split(" ")[0])
+            m = cli_model[av]
+            if m == "bad-op":
+                raise HarnessError(f"driver rejected the command line {av!r}")
+            if m == "out-of-model":
+                rep.out_of_model += 1
+                continue
+            rep.traces += 1
+            if m != cli_impl[av]:
+                rep.disagree({"case": case, "line": "C19 A " + " ".join(hx(a) for a in av)}, m, cli_impl[av],
+                             "command line")
         rep.exhaustive_parts.append("every block (and two past the end) of every boundary-size file for szx 0..7")
         rep.exhaustive_parts.append("all Uri-Path lists of length <= 2 over 15 symbols and length 3 over 6 symbols")
         for k in () if (rep.oracle_failures or rep.disagreements) else ("R:outcome=2.05", "R:outcome=4.00", "R:outcome=2.04", "R:outcome=2.02", "R:outcome=4.03",
-                  "R:outcome=4.12", "R:outcome=crash", "R:op=T", "R:op=L", "R:op=O", "R:op=U"):
+                  "R:outcome=4.12", "R:outcome=crash", "R:op=T", "R:op=L", "R:op=O", "R:op=U", "S:started",
+                  "S:write-permission=0", "S:write-permission=1", "S:root=working-directory", "M:obs=active",
+                  "M:obs=ended", "M:grows=1", "M:grows=0", "R:method=OGET", "R:method=TICK", "R:method=LW"):
             if not rep.hist.get(k):
                 raise HarnessError(f"generator never produced {k}")
         if os.path.exists("/tmp/c19-should-never-exist"):
@@ -848,9 +1598,9 @@ def replay(env, case):
         return sink.failures[0] if sink.failures else ""
     if kind == "P":
         impl = Impl(env)
-        d = tempfile.mkdtemp(prefix="c19-")
+        d = scratch_dir("c19-")
         try:
-            o = impl_localpath(impl, case["root"], case["comps"], Jail(os.path.realpath(d)))
+            o = impl_localpath(impl, case["root"], case["comps"], Jail(d))
         finally:
             shutil.rmtree(d, ignore_errors=True)
         if o.startswith("ok"):
@@ -863,7 +1613,14 @@ def replay(env, case):
     try:
         if kind == "F":
             return fetch_oracle(case, runner.run_history(fetch_history(case)))
-        for res in runner.run_history(case):
+        if kind == "M":
+            h, first = mutation_history(case)
+            results = runner.run_history(h)
+            for res in results:
+                if res["verdicts"]:
+                    return res["verdicts"][0][0]
+            return fetch_oracle(case, results[first:], results[first]["disk"])
+        for res in runner.run_history(case) or []:
             if res["verdicts"]:
                 return res["verdicts"][0][0]
         return ""
